@@ -1,6 +1,9 @@
 import KyupyVerif.Proofs.CircObjHistory
 import KyupyVerif.Proofs.CircObjInv
 import KyupyVerif.Proofs.CircObjStats
+import KyupyVerif.Proofs.CircObjSubst
+import KyupyVerif.Proofs.CircObjSubstStatic
+import KyupyVerif.Proofs.CircObjSubstFull
 /-! # C09 — circuit graph stays consistent under every edit history
 
 Object of the theorems: the hand-written object-level model `KV.CircObj` (Model/CircObj.lean) of `kyupy/circuit.py`:
@@ -23,16 +26,46 @@ fork outputs contain no `None`, ports are nodes of the circuit (plus model bookk
   permutations of the node list split by class, so sizes and every count taken over `cells.values()` equal the counts over
   the node list (`cells_perm`, `forks_perm`, `stats_sizes`, `stats_kind_count`), and the literal `defaultdict` computation
   of `stats` returns base value + those counts for every key (`stats_value`, `stats_seq`).
+  `substitute`, `remove_dangling_nodes`, `resolve_tlib_cells` are modelled at object level too (Model/CircObjSub.lean:
+  `substituteObj`, `removeDanglingObj`, `resolveObj`, statement by statement over the same primitives `addNode`, `addLine`
+  with explicit pins, `removeLine`, `removeNode`; node-keyed sets and dictionaries compare by `Node.__eq__`; `none` where
+  Python raises).  Inside these operations `WFc` does not hold (lines keep a stale end while the node's pin lists are
+  already cleared or the node is already removed): the proofs go through the weaker invariant `SInv`
+  (Proofs/CircObjSInv.lean) with the pending line ends as parameters.  Proved:
+  - `removeDangling_wf`: any node of any well-formed circuit, no further hypothesis;
+  - `substitute_wf0_static`: well-formed host AND implementation + the structural precondition `substStatic` (the node is
+    a cell and stays one / is not a port when it gets removed, no line from the node to itself, port list of the
+    implementation without duplicates, designated cell not a port — which since the repair of D32 holds by itself unless a
+    port of the implementation is a flip-flop/latch, `designated_not_port`) ⇒ the result satisfies `WFc0` = everything of `WFc`
+    except gap-freeness of fork outputs — all arities, unconnected and ignored pins, ports read internally, state elements,
+    removal of dangling logic included; via `substStatic_pre0` (structure ⇒ the run-time pin guards `substGuards`:
+    `node_map` is injective, every occupied pin of an image stems from a copied implementation line or an instance pin);
+  - `substitute_wf_static` / `substStatic_pre`: the same hypotheses give `WFc` of the result (and `substStatic` implies the
+    run-time precondition `substPre`): forks of the host stay gap-free (only `Line.remove` of an ignored input touches them),
+    copied forks are made dense again by the loop after the connecting loops (`densify`; an unconnected output pin of the
+    instance would otherwise leave a gap — the repair of D30), the removal of the dangling logic keeps all forks gap-free;
+    nothing is evaluated along the run;
+  - `substitute_wf0` / `substitute_wf`: the same conclusions from the decidable run-time preconditions `substPre0` /
+    `substPre` (kinds, no self loop, pin guards, `forksFull` of the result) with NO hypothesis on the implementation;
+  - `resolve_wf` (`resolvePre`), `resolve_wf_static` (`resolveStatic`), uniformly `step2_wf`, and `history_wf2` /
+    `history_wf2_prefix` for histories over all twelve operations.
 * **Correspondence** (harness/c09.py, differential, not proof): the model against the real `kyupy.circuit` API on random
   edit histories — canonical dump after EVERY step (node kinds, names, pin lists as line indices, line ends, `io_nodes`,
   `cells`/`forks` in dictionary order, `stats`) must be equal, `pre` must accept every generated operation, and `invOK` of
   the model state is reported.
+  The three operations of Model/CircObjSub.lean are part of the random histories (and run on the hosts × implementations
+  of the C10 generators and with the built-in library objects): same dump after the call, `none` exactly when the real code
+  raises; the value of `substPre` / `resolvePre` is reported per call, and where it is true `invOK` must be true.
 * **Oracle** (harness/c09.py): `WFc` stated directly over the Python objects (identity, not `Node.__eq__`) after every
-  step; this, not the model, decides violations.  `substitute` / `resolve_tlib_cells` / `remove_dangling_nodes` are NOT
-  modelled: they are exercised through this oracle only (`WFc` after the call on netlists of library cells).
+  step (also after `substitute` / `resolve_tlib_cells` / `remove_dangling_nodes`); this, not the model, decides violations.
+  D30 (fixed): `substitute` with an open output pin left a `None` gap in a copied fork (`exGap` below is that use).
 * Outside the theorems: what Python does outside well-formed use (explicit pin on an occupied position, removing a node
-  that still has lines or is a port, `eliminate_1to1_forks` on a 1:1 fork without / with several input lines) — probed by
-  the harness and recorded as notes. -/
+  that still has lines or is a port, `eliminate_1to1_forks` on a 1:1 fork without / with several input lines,
+  `substitute` of a cell with a line from its own output to its own input) — probed by the harness and recorded as notes.
+  D32 (fixed): `substitute` with a feed-through implementation (an output port driven through forks only by an input port)
+  used to make a PORT the designated cell and corrupt the graph; since the repair such an implementation has no designated
+  cell, the model follows (`implShape`), the use is inside `substStatic` (`designated_not_port`, `exFeed`) and is part of the
+  fixed histories of the harness (`FEEDTHROUGH_WITNESS`). -/
 namespace KV.C09
 open KV.CircObj
 
@@ -160,6 +193,165 @@ example : (run empty [.addNode "a" "AND2", .addNode "b" FORK, .addLine 1 none 0 
   decide +kernel
 example : (run empty [.addNode "a" "AND2", .addNode "b" FORK, .addLine 1 none 0 (some 0), .removeNode 0]).isSome = false := by
   decide +kernel
+
+/-! ## `substitute`, `remove_dangling_nodes`, `resolve_tlib_cells` (object-level model: Model/CircObjSub.lean) -/
+/-- `c.remove_dangling_nodes(root)` for ANY node of a well-formed circuit: the recursion over the drivers (depth first;
+nodes met again after their removal; ports, state elements and nodes with an output line stay) ends in a well-formed
+circuit.  (`none` = the model's fuel is exhausted / the real code raises, which does not happen from `WFc`.) -/
+theorem removeDangling_wf {c c' : Circ} {root : Nat} (wf : WFc c) (hroot : root ∈ c.nodes)
+    (h : removeDanglingObj c root = some c') : WFc c' := KV.CircObj.removeDanglingObj_wf wf hroot h
+
+/-- `c.substitute(node, impl)` keeps everything of `WFc` except possibly gap-freeness of fork outputs (`WFc0`) under the
+decidable precondition `substPre0`: the node is a cell of the circuit and stays a cell (the designated cell of the
+implementation is not a fork; without a designated cell the node is removed and must not be a port), no line runs from
+the node to itself, and no explicit pin assignment of `substitute` hits a pin that holds a line (`substGuards`,
+evaluated along the run; `substStatic_pre0` derives it from structural conditions). No hypothesis on `impl`. -/
+theorem substitute_wf0 {c c' : Circ} {i : Nat} {impl : Circ} (wf : WFc c) (hpre : substPre0 c i impl = true)
+    (h : substituteObj c i impl = some c') : WFc0 c' := KV.CircObj.substituteObj_wf0 wf.toWFc0 hpre h
+
+/-- the run-time pin guards follow from structure: on a well-formed host, `substStatic` (the node is a cell and stays
+one / is not a port when it gets removed, no self loop, the implementation is a well-formed circuit whose port list has no
+duplicates and whose designated cell is not a port) implies `substPre0`.  Nothing is evaluated along the run. -/
+theorem substStatic_pre0 {c : Circ} {i : Nat} {impl : Circ} (wf : WFc c) (hst : substStatic c i impl = true) :
+    substPre0 c i impl = true := KV.CircObj.substPre0_of_static wf.toWFc0 hst
+
+/-- hence: `substitute` on well-formed host and implementation under the structural precondition keeps everything of
+`WFc` except possibly gap-freeness of fork outputs — for every arity, unconnected pins, ignored inputs, outputs read
+internally, removal of dangling logic included -/
+theorem substitute_wf0_static {c c' : Circ} {i : Nat} {impl : Circ} (wf : WFc c) (hst : substStatic c i impl = true)
+    (h : substituteObj c i impl = some c') : WFc0 c' := substitute_wf0 wf (substStatic_pre0 wf hst) h
+
+/-- ... and `WFc` when in addition the fork outputs of the result are gap-free (`substPre` = `substPre0` + `forksFull` of
+the result; without hypotheses on the implementation a fork of the implementation with a gap is copied with it) -/
+theorem substitute_wf {c c' : Circ} {i : Nat} {impl : Circ} (wf : WFc c) (hpre : substPre c i impl = true)
+    (h : substituteObj c i impl = some c') : WFc c' := KV.CircObj.substituteObj_wf wf hpre h
+
+/-- structural precondition only: well-formed host and implementation + `substStatic` give `WFc` of the result.  Instance
+pins may be unconnected, inputs may be ignored by the implementation, ports may be read internally, the implementation may
+contain forks and state elements, dangling logic behind open outputs is removed; nothing is evaluated along the run. -/
+theorem substitute_wf_static {c c' : Circ} {i : Nat} {impl : Circ} (wf : WFc c) (hst : substStatic c i impl = true)
+    (h : substituteObj c i impl = some c') : WFc c' := KV.CircObj.substituteObj_wf_static wf hst h
+
+/-- ... in other words the structural condition implies the run-time precondition `substPre` -/
+theorem substStatic_pre {c : Circ} {i : Nat} {impl : Circ} (wf : WFc c) (hst : substStatic c i impl = true) :
+    substPre c i impl = true := KV.CircObj.substPre_of_static wf hst
+
+/-- since the repair of D32 (when the walk from the first output of the implementation ends at one of its PORTS — a
+feed-through cell `input A -> fork -> output X` — the implementation has no designated cell) the clause "the designated cell
+is not a port" of `substStatic` (`desNotPort`) holds by itself for every implementation none of whose ports is a
+flip-flop/latch: feed-through implementations are inside the structural theorems (`exFeed` below) -/
+theorem designated_not_port {impl : Circ} (h : (impl.io.all fun p => !(isSeqKind (impl.nobj p).kind)) = true) :
+    desNotPort impl = true := KV.CircObj.desNotPort_of_portsNotSeq h
+
+/-- `c.resolve_tlib_cells(tlib)`: the loop over the snapshot `list(self.nodes)`; `resolvePre` = every substitution it
+performs is a well-formed use -/
+theorem resolve_wf {lib : Lib} {c c' : Circ} (wf : WFc c) (hpre : resolvePre lib c = true) (h : resolveObj lib c = some c') :
+    WFc c' := KV.CircObj.resolveObj_wf wf hpre h
+
+/-- `resolve_tlib_cells` when every substitution it performs satisfies the structural precondition (`resolveStatic`:
+`substStatic` on the circuit as it is when that substitution starts) -/
+theorem resolve_wf_static {lib : Lib} {c c' : Circ} (wf : WFc c) (hst : resolveStatic lib c = true)
+    (h : resolveObj lib c = some c') : WFc c' := resolve_wf wf (KV.CircObj.resolvePre_of_static wf hst) h
+
+/-- every operation of the extended repertoire preserves `WFc` under its decidable precondition `pre2` -/
+theorem step2_wf {c c' : Circ} (wf : WFc c) (op : Op2) (hpre : pre2 c op = true) (h : step2 c op = some c') : WFc c' :=
+  KV.CircObj.step2_wf wf op hpre h
+
+/-- every finite history of well-formed uses of ALL modelled operations (the nine of `Op`, `substitute`,
+`remove_dangling_nodes`, `resolve_tlib_cells`) that starts from the empty circuit ends in a well-formed circuit -/
+theorem history_wf2 (ops : List Op2) (c : Circ) (h : run2 empty ops = some c) : WFc c :=
+  run2_wf ops empty c KV.CircObj.empty_wf h
+
+/-- ... and so does every prefix -/
+theorem history_wf2_prefix (ops rest : List Op2) (c : Circ) (h : run2 empty (ops ++ rest) = some c) :
+    ∃ c', run2 empty ops = some c' ∧ WFc c' := by
+  have key : ∀ (ops : List Op2) (c0 : Circ), run2 c0 (ops ++ rest) = some c → ∃ c', run2 c0 ops = some c' := by
+    intro ops
+    induction ops with
+    | nil => intro c0 _; exact ⟨c0, rfl⟩
+    | cons op ops ih =>
+      intro c0 h
+      simp only [List.cons_append, run2] at h ⊢
+      split at h
+      · rename_i hp
+        simp only [hp, if_true]
+        cases hs : step2 c0 op with
+        | none => simp [hs] at h
+        | some c1 => simp only [hs] at h ⊢; exact ih _ h
+      · cases h
+  obtain ⟨c', hc'⟩ := key ops empty h
+  exact ⟨c', hc', history_wf2 ops c' hc'⟩
+
+/-! ### the preconditions are satisfiable: a half adder instance is substituted by an implementation with a port read
+internally (a fork is made for it), an input with two readers (a fork is made) and one with a single reader; then an
+instance of a library cell is added and resolved, and a dangling gate is removed together with the logic behind it -/
+/-- X = AND2(A, B), Y = OR2(A, X); ports A, B, X, Y are forks (as `TechLib` builds them) -/
+def exImpl : Circ := setState
+  { nodes := [("A", FORK), ("B", FORK), ("X", "AND2"), ("X", FORK), ("Y", "OR2"), ("Y", FORK)],
+    lines := [(0, 0, 2, 0), (1, 0, 2, 1), (2, 0, 3, 0), (0, 1, 4, 0), (3, 0, 4, 1), (4, 0, 5, 0)],
+    io := [0, 1, 3, 5] }
+/-- Z = INV1(A) -/
+def exImpl2 : Circ := setState
+  { nodes := [("A", FORK), ("Z", "INV1"), ("Z", FORK)], lines := [(0, 0, 1, 0), (1, 0, 2, 0)], io := [0, 2] }
+
+def exHistory2 : List Op2 :=
+  [.base (.addNode "a" "input"), .base (.addNode "b" "input"), .base (.addNode "u" "HA"), .base (.addNode "ox" "output"),
+   .base (.addNode "oy" "output"), .base (.addLine 0 none 2 (some 0)), .base (.addLine 1 none 2 (some 1)),
+   .base (.addLine 2 (some 0) 3 none), .base (.addLine 2 (some 1) 4 none), .base (.ioAppend 0), .base (.ioAppend 1),
+   .base (.ioAppend 3), .base (.ioAppend 4), .substitute 2 exImpl,
+   .base (.addNode "v" "INVX"), .base (.addNode "w" FORK), .base (.addLine 6 none 8 (some 0)), .base (.addLine 8 (some 0) 9 none),
+   .base (.addNode "g" "BUF1"), .base (.addLine 9 none 10 none), .resolve [("INVX", exImpl2)], .removeDangling 10, .base .copy]
+
+/-- after `substitute`: 8 nodes, 8 lines; after `resolve`: 11 nodes, 11 lines; `remove_dangling_nodes` takes away the
+gate, the fork and the resolved cell behind it -/
+example : ((run2 empty (exHistory2.take 14)).map fun c => (c.nodes.length, c.lines.length, invOK c)) = some (8, 8, true) := by
+  decide +kernel
+example : ((run2 empty (exHistory2.take 21)).map fun c => (c.nodes.length, c.lines.length, invOK c)) = some (11, 11, true) := by
+  decide +kernel
+example : ((run2 empty exHistory2).map fun c => (c.nodes.length, c.lines.length, invOK c)) = some (8, 8, true) := by
+  decide +kernel
+/-- the structural preconditions hold for the substitution and for the resolution in this history -/
+example : ((run2 empty (exHistory2.take 13)).map fun c => substStatic c 2 exImpl) = some true := by decide +kernel
+example : ((run2 empty (exHistory2.take 20)).map fun c => resolveStatic [("INVX", exImpl2)] c) = some true := by decide +kernel
+
+/-- D30: an open output pin whose implementation line leaves a fork at a pin below another kept output of that fork (fork
+`F` drives the output port `O1` at pin 0 and a gate at pin 1; the instance pin of `O1` is open).  The structural precondition
+holds; the copied fork is made dense again (`F.outs = [line]`, its `driver_pin` renumbered to 0): 4 nodes, 3 lines, `WFc`. -/
+def exGap : Circ := setState
+  { nodes := [("A", "input"), ("F", FORK), ("X", "INV1"), ("O1", "output"), ("O2", "output")],
+    lines := [(0, 0, 1, 0), (1, 0, 3, 0), (1, 1, 2, 0), (2, 0, 4, 0)], io := [0, 4, 3] }
+def exHistoryGap : List Op2 :=
+  [.base (.addNode "a" "input"), .base (.addNode "u" "CELLX1"), .base (.addNode "o" "output"),
+   .base (.addLine 0 none 1 none), .base (.addLine 1 (some 0) 2 none), .base (.ioAppend 0), .base (.ioAppend 2)]
+example : ((run2 empty exHistoryGap).map fun c => (substStatic c 1 exGap, substPre c 1 exGap)) = some (true, true) := by
+  decide +kernel
+example : ((run2 empty (exHistoryGap ++ [.substitute 1 exGap])).map fun c =>
+    (c.nodes.length, c.lines.length, invOK c, c.nodes.map fun j => (c.nobj j).outs.length)) = some (4, 3, true, [1, 1, 0, 1]) := by
+  decide +kernel
+
+/-- D32 (fixed): the feed-through implementation `input A -> fork a -> output X`.  The walk for the designated cell ends at
+the port `A`, so there is none: the instance is removed, the fork `u~a` takes its place between the instance's lines — the
+structural precondition holds and the result (3 nodes, 2 lines) is well-formed.  (Before the repair the port became the
+designated cell and the graph was corrupted.) -/
+def exFeed : Circ := setState
+  { nodes := [("A", "input"), ("a", FORK), ("X", "output")], lines := [(0, 0, 1, 0), (1, 0, 2, 0)], io := [0, 2] }
+example : (implShape exFeed).map (·.des) = some none ∧
+    ((run2 empty exHistoryGap).map fun c => (substStatic c 1 exFeed, substPre c 1 exFeed)) = some (true, true) := by
+  decide +kernel
+example : ((run2 empty (exHistoryGap ++ [.substitute 1 exFeed])).map fun c =>
+    (c.nodes.length, c.lines.length, invOK c, c.nodes.map fun j => (c.nobj j).kind)) =
+      some (3, 2, true, ["input", "output", FORK]) := by
+  decide +kernel
+
+/-- an open output pin with dangling logic behind it: the half adder of `exHistory2` with its second output open — the OR
+gate behind it is removed together with its two input lines (two fork squeezes): 6 nodes, 5 lines -/
+def exHistoryOpen : List Op2 :=
+  [.base (.addNode "a" "input"), .base (.addNode "b" "input"), .base (.addNode "u" "HA"), .base (.addNode "ox" "output"),
+   .base (.addLine 0 none 2 (some 0)), .base (.addLine 1 none 2 (some 1)), .base (.addLine 2 (some 0) 3 none),
+   .base (.ioAppend 0), .base (.ioAppend 1), .base (.ioAppend 3)]
+example : ((run2 empty exHistoryOpen).map fun c => substStatic c 2 exImpl) = some true := by decide +kernel
+example : ((run2 empty (exHistoryOpen ++ [.substitute 2 exImpl])).map fun c => (c.nodes.length, c.lines.length, invOK c)) =
+    some (6, 5, true) := by decide +kernel
 
 /-! ## statistics -/
 /-- `cells.values()` is a permutation of the non-fork nodes, `forks.values()` of the fork nodes -/
